@@ -971,3 +971,62 @@ Definition expected_nodes_gaps : list (string * list string) := [
   ("AnalyticFunction", ["schema"]); ("WindowFrameAnalyticFunction", ["schema"]); ("IgnoreNullsAnalyticFunction", ["schema"]);
   ("Pow", ["schema"]); ("Mod", ["schema"]); ("Rollup", ["schema"])
 ].
+
+(* ---- the vote of every term class in resolve_is_aggregate (table extracted from pypika/terms.py: gen/C14Table.v) ---- *)
+(* "None": the class abstains (Node default: values, parameters, interval literals, AT TIME ZONE, the empty criterion);
+   "False" / "True": a fixed vote; "property": computed from the operands by resolve_is_aggregate.  The RETURNING aggregate
+   guard depends on these votes: an abstaining operand next to an aggregate leaves the expression an aggregate. *)
+Definition expected_is_aggregate_table : list (string * string) := [
+  ("Node", "None");
+  ("Term", "False");
+  ("Parameter", "None");
+  ("ListParameter", "None");
+  ("DictParameter", "None");
+  ("QmarkParameter", "None");
+  ("NumericParameter", "None");
+  ("FormatParameter", "None");
+  ("NamedParameter", "None");
+  ("PyformatParameter", "None");
+  ("Negative", "property");
+  ("ValueWrapper", "None");
+  ("ParameterValueWrapper", "None");
+  ("JSON", "False");
+  ("Values", "False");
+  ("LiteralValue", "False");
+  ("NullValue", "False");
+  ("SystemTimeValue", "False");
+  ("Criterion", "False");
+  ("EmptyCriterion", "None");
+  ("Field", "False");
+  ("Index", "False");
+  ("Star", "False");
+  ("Tuple", "property");
+  ("Array", "property");
+  ("Bracket", "property");
+  ("NestedCriterion", "property");
+  ("BasicCriterion", "property");
+  ("ContainsCriterion", "property");
+  ("ExistsCriterion", "False");
+  ("RangeCriterion", "property");
+  ("BetweenCriterion", "property");
+  ("PeriodCriterion", "property");
+  ("BitwiseAndCriterion", "False");
+  ("NullCriterion", "False");
+  ("NotNullCriterion", "False");
+  ("ComplexCriterion", "property");
+  ("ArithmeticExpression", "property");
+  ("Case", "property");
+  ("Not", "False");
+  ("All", "False");
+  ("Function", "property");
+  ("AggregateFunction", "True");
+  ("AnalyticFunction", "False");
+  ("WindowFrameAnalyticFunction", "False");
+  ("IgnoreNullsAnalyticFunction", "False");
+  ("Interval", "None");
+  ("Pow", "property");
+  ("Mod", "property");
+  ("Rollup", "property");
+  ("PseudoColumn", "False");
+  ("AtTimezone", "None")
+].
